@@ -259,18 +259,24 @@ func verifCheck(al verifAligner, mod verifModel, rw, qw string) (c08, c09 error)
 	if err != nil {
 		return nil, err
 	}
-	// well-formedness (C09)
+	// bounds first: everything below indexes the sequences with the reported coordinates
 	total := 0
 	for k, p := range ps {
 		if p.a.start < 0 || p.a.end > len(r) || p.b.start < 0 || p.b.end > len(q) || p.a.start > p.a.end || p.b.start > p.b.end {
 			return nil, fmt.Errorf("pair %d %v out of bounds", k, p)
 		}
+		total += p.score
+	}
+	// optimality of the reported total (C08), decided independently of the C09 clauses below
+	c08 = verifOptimal(al, mod, r, q, ps, total)
+	// well-formedness (C09)
+	for k, p := range ps {
 		if k > 0 && (ps[k-1].a.end != p.a.start || ps[k-1].b.end != p.b.start) {
-			return nil, fmt.Errorf("pairs %d %v and %d %v do not abut", k-1, ps[k-1], k, p)
+			return c08, fmt.Errorf("pairs %d %v and %d %v do not abut", k-1, ps[k-1], k, p)
 		}
 		want, err := mod.pairScore(r, q, p)
 		if err != nil {
-			return nil, err
+			return c08, err
 		}
 		if p.score != want {
 			d := &verifDeviation{msg: fmt.Sprintf("pair %d %v reports score %d, recomputed %d", k, p, p.score, want)}
@@ -278,22 +284,12 @@ func verifCheck(al verifAligner, mod verifModel, rw, qw string) (c08, c09 error)
 				// recorded: the affine tracebacks compare the cell with predecessor formulas of every layer, not only the current one
 				d.finding = al.name + ".segment-scores"
 			}
-			return nil, d
+			return c08, d
 		}
-		total += p.score
 	}
-	switch al.kind {
-	case verifGlobal:
+	if al.kind == verifGlobal {
 		if len(ps) == 0 || ps[0].a.start != 0 || ps[0].b.start != 0 || ps[len(ps)-1].a.end != len(r) || ps[len(ps)-1].b.end != len(q) {
-			return nil, fmt.Errorf("global alignment %v does not span both sequences", ps)
-		}
-	case verifFitted:
-		if len(ps) == 0 || ps[0].b.start != 0 || ps[len(ps)-1].b.end != len(q) {
-			d := &verifDeviation{msg: fmt.Sprintf("fitted alignment %v does not consume the whole query", ps)}
-			if al.affine {
-				d.finding = al.name + ".query-not-consumed"
-			}
-			c08 = d
+			return c08, fmt.Errorf("global alignment %v does not span both sequences", ps)
 		}
 	}
 	// the same pairs for quality letters (C09)
@@ -333,10 +329,20 @@ func verifCheck(al verifAligner, mod verifModel, rw, qw string) (c08, c09 error)
 			return c08, fmt.Errorf("Format rows %q %q do not reduce to the aligned parts of %q %q (%v)", ra, rb, rw, qw, ps)
 		}
 	}
-	if c08 != nil {
-		return c08, nil
+	return c08, nil
+}
+
+// verifOptimal: the C08 clause for one reported alignment (total = sum of the reported pair scores).
+func verifOptimal(al verifAligner, mod verifModel, r, q []int, ps []*featPair, total int) error {
+	if al.kind == verifFitted {
+		if len(ps) == 0 || ps[0].b.start != 0 || ps[len(ps)-1].b.end != len(q) {
+			d := &verifDeviation{msg: fmt.Sprintf("fitted alignment %v does not consume the whole query", ps)}
+			if al.affine {
+				d.finding = al.name + ".query-not-consumed"
+			}
+			return d
+		}
 	}
-	// optimality (C08)
 	var want int
 	switch al.kind {
 	case verifGlobal:
@@ -355,9 +361,9 @@ func verifCheck(al verifAligner, mod verifModel, rw, qw string) (c08, c09 error)
 		case (al.name == "SWAffine" || al.name == "FittedAffine") && total < want:
 			d.finding = al.name + ".suboptimal"
 		}
-		c08 = d
+		return d
 	}
-	return c08, nil
+	return nil
 }
 
 func verifClass(err error) string {
